@@ -254,7 +254,8 @@ impl Transformer {
                 }
                 _ => false,
             },
-            other => other == f,
+            // a pattern datum matches an input that is equal? to it (same type, value and exactness)
+            other => crate::engines::c10::strict_eq(other, f),
         }
     }
 
